@@ -100,12 +100,16 @@ fn collect_type_dec(
     tokens: &[Token],
     previous_token_pos: &mut Position,
 ) -> Vec<SemanticToken> {
+    // index of the name token, relative to the reference of the declaration
+    // (the identifier is the last token of its range, which might start with comments)
+    let name_index = td.name.as_ref().map(|name| name.to_range().end - 1);
     td.info
         .slice(tokens)
         .iter()
-        .filter_map(|token| {
-            let semantic_token = if matches!(&td.name, Some(name) if name.to_range() == token.range)
-            {
+        .enumerate()
+        .filter_map(|(i, token)| {
+            let index = td.info.range.start + i;
+            let semantic_token = if name_index == Some(index) {
                 Some(create_semantic_token(
                     token,
                     *previous_token_pos,
@@ -143,12 +147,16 @@ fn collect_proc_dec(
         local_table: super::get_local_table(pd, global_table),
         global_table: Some(global_table),
     };
+    // index of the name token, relative to the reference of the declaration
+    // (the identifier is the last token of its range, which might start with comments)
+    let name_index = pd.name.as_ref().map(|name| name.to_range().end - 1);
     pd.info
         .slice(tokens)
         .iter()
-        .filter_map(|token| {
-            let semantic_token = if matches!(&pd.name, Some(name) if name.to_range() == token.range)
-            {
+        .enumerate()
+        .filter_map(|(i, token)| {
+            let index = pd.info.range.start + i;
+            let semantic_token = if name_index == Some(index) {
                 Some(create_semantic_token(
                     token,
                     *previous_token_pos,
@@ -173,7 +181,11 @@ fn collect_proc_dec(
                         SemanticTokenModifier::None.into(),
                     ),
                     Entry::Variable(variable) => {
-                        let modifier = if variable.name.to_range() == token.range {
+                        // the range of the entry is relative to the procedure,
+                        // the range of its name is relative to the entry
+                        let modifier = if variable.range.start + variable.name.to_range().end
+                            == index + 1
+                        {
                             SemanticTokenModifier::Declaration
                         } else {
                             SemanticTokenModifier::None
@@ -187,7 +199,9 @@ fn collect_proc_dec(
                         )
                     }
                     Entry::Parameter(param) => {
-                        let modifier = if param.name.to_range() == token.range {
+                        let modifier = if param.range.start + param.name.to_range().end
+                            == index + 1
+                        {
                             SemanticTokenModifier::Declaration
                         } else {
                             SemanticTokenModifier::None
